@@ -456,6 +456,9 @@ SHAPES = {
     # ... and the one on the second chip carries cores 16 and 17 and a core
     # above the shared one: (0x00030002, 0x30020) then (0x00030003, 0x8)
     "2 chips 5 cores 16 17": [{(0, 0): (3,), (1, 0): (3, 5, 16, 17)}],
+    # a chip with two requested cores, the higher one being PRE_CORE
+    "2 chips 3 cores, 1 and 5 on the first": [{(0, 0): (1, 5),
+                                               (1, 0): (1,)}],
     "3 chips same core": [{(0, 0): (1,), (1, 0): (1,), (0, 1): (1,)}],
     "3 chips 6 cores 2 blocks": [{(0, 0): (1, 17), (1, 0): (1, 17),
                                   (4, 4): (2, 3)}],
@@ -548,7 +551,11 @@ def h_load(ctx, shapes, bufs, sizes, tries, modes, nn_starts, pres,
     binaries = SHAPES[shape]
 
     app_id = ctx.bv("app_id", 8)
-    pre_app = ctx.bv("pre_app", 8) if pre else None
+    # pre == "same": the waiting core is one of the requested ones and holds
+    # the requested binary under the requested id (an earlier, successful
+    # load of the same application)
+    pre_app = (app_id if pre == "same" else
+               ctx.bv("pre_app", 8) if pre else None)
     # the test point of the selection proofs
     cx = ctx.bv("cx", 8)
     cy = ctx.bv("cy", 8)
@@ -565,7 +572,7 @@ def h_load(ctx, shapes, bufs, sizes, tries, modes, nn_starts, pres,
     FillMachine = _machine_classes()
     machine = FillMachine(ctx, chips, buf)
     machine.reliable = reliable
-    if pre:
+    if pre and pre != "same":
         machine.cores[PRE_CORE] = Core(ST_WAIT, pre_app, OLD_IMAGE, -1)
     world = World(ctx, machine=machine, faults=0, prompt=True,
                   multi_recv=False, timed=False, delays=1)
@@ -580,6 +587,9 @@ def h_load(ctx, shapes, bufs, sizes, tries, modes, nn_starts, pres,
         path, data = _aplx(i, size)
         files.append((path, data, t))
         amap[path] = {c: set(ps) for c, ps in t.items()}
+        if pre == "same" and PRE_CORE[1] in t.get(PRE_CORE[0], ()):
+            machine.cores[PRE_CORE] = Core(ST_WAIT, app_id, data, -1)
+            ctx.witness("requested core already loaded")
     with patch:
         saved_time = mcm.time
         ft = _FakeTime(world)
@@ -722,8 +732,12 @@ def h_load(ctx, shapes, bufs, sizes, tries, modes, nn_starts, pres,
         fs = attempts[k]
         snap = fs[0].snapshot
         missing = {}        # binary index -> set of (chip, p)
+        # (the first attempt is the load itself and goes to every requested
+        # core, whatever an earlier load may have left there; it is the
+        # re-sends that go to the missing cores only)
+        first = k == min(attempts)
         for key, (i, data) in want.items():
-            if not holds(snap.get(key), data):
+            if first or not holds(snap.get(key), data):
                 missing.setdefault(i, set()).add(key)
         ctx.prove(len(fs) == len(missing), "attempt-fill-count-wrong",
                   (k, len(fs), sorted(missing)))
@@ -923,6 +937,12 @@ def units(tier, seed):
         pres=(True,) if q else (False, True), split=7,
         witnesses=W + ("waiting core under the same app id",
                        "waiting core under another app id"))
+    # one of the requested cores already holds the binary (an earlier load
+    # of the same application): it is neither re-sent to nor named missing
+    unit("a requested core already loaded by an earlier load",
+         shapes=("2 chips 3 cores, 1 and 5 on the first",), pres=("same",),
+         tries=(0, 1), split=6,
+         witnesses=W + ("requested core already loaded",))
     # the options of the call taken from an enclosing block
     unit("options from an enclosing block", shapes=("2 chips 3 cores",),
          tries=(0, 1), via_context=True, split=6,
